@@ -29,7 +29,7 @@ def vf_dialect():
     global _DIALECT
     if _DIALECT is not None:
         return _DIALECT
-    from xdsl.dialects.builtin import I32, IntegerAttr, StringAttr, SymbolNameConstraint, UnitAttr, i32
+    from xdsl.dialects.builtin import I32, BoolAttr, IntegerAttr, StringAttr, SymbolNameConstraint, UnitAttr, i32
     from xdsl.ir import Dialect
     from xdsl.irdl import (AttrSizedOperandSegments, IRDLOperation, attr_def, irdl_op_definition, operand_def, opt_operand_def, opt_prop_def,
                            opt_region_def, prop_def, region_def, result_def, successor_def, traits_def, var_operand_def, var_result_def)
@@ -133,6 +133,13 @@ def vf_dialect():
         assembly_format = "$succ attr-dict"
 
     @op
+    class DefAttr(IRDLOperation):
+        name = "vf.defattr"
+        flag = attr_def(BoolAttr, default_value=BoolAttr.from_bool(False))
+        level = attr_def(IntegerAttr[I32], default_value=IntegerAttr(2, i32))
+        assembly_format = "attr-dict"
+
+    @op
     class OpsKw(IRDLOperation):
         name = "vf.operands"
         ins = var_operand_def()
@@ -204,6 +211,11 @@ def synthetic_modules() -> list[tuple[Any, str]]:
                f"vf.nested {pv},{present}")
         for v in (0, -1, 2147483647):
             mod([d["vf.attr"].build(attributes={"attr": IntegerAttr(v, i32), **ex})], f"vf.attr {v}")
+        from xdsl.dialects.builtin import BoolAttr
+
+        # default first, then non-default, then default again: the printer must not remember what it elided
+        for fl, lv in ((False, 2), (True, 2), (False, 5), (True, 7), (False, 2)):
+            mod([d["vf.defattr"].build(attributes={"flag": BoolAttr.from_bool(fl), "level": IntegerAttr(lv, i32), **ex})], f"vf.defattr {fl},{lv}")
         b2 = Block([test.TestTermOp.create()])
         b1 = Block([d["vf.succ"].build(successors=[b2], attributes=dict(ex))])
         mod([test.TestOp.create(regions=[Region([b1, b2])])], "vf.succ")
@@ -248,8 +260,18 @@ DIRECTED = {
     "scf.yield"() : () -> ()
   }) {x = unit} : (i1) -> ()
 }) : () -> ()''',
-    "func.func with attributes on some results only": '''"builtin.module"() ({
+    "func.func declaration with result attributes": '''"builtin.module"() ({
   "func.func"() <{function_type = () -> (f32, i64), sym_name = "f", sym_visibility = "private", res_attrs = [{a.b = 0 : i32}, {}]}> ({}) : () -> ()
+}) : () -> ()''',
+    "func.func with attributes on some results only": '''"builtin.module"() ({
+  "func.func"() <{function_type = () -> (f32, i64, f32), sym_name = "some", res_attrs = [{a.b = 0 : i32}, {}, {a.c}]}> ({
+    %x, %y = "test.op"() : () -> (f32, i64)
+    "func.return"(%x, %y, %x) : (f32, i64, f32) -> ()
+  }) : () -> ()
+  "func.func"() <{function_type = () -> (f32, f32), sym_name = "last", res_attrs = [{}, {a.b = 1 : i32}]}> ({
+    %x = "test.op"() : () -> f32
+    "func.return"(%x, %x) : (f32, f32) -> ()
+  }) : () -> ()
 }) : () -> ()''',
     "func.func with attributes on some arguments only": '''"builtin.module"() ({
   "func.func"() <{function_type = (f32, i64) -> (), sym_name = "g", arg_attrs = [{}, {a.b = 0 : i32}]}> ({
@@ -268,18 +290,6 @@ DIRECTED = {
   %d = "arith.addf"(%a, %b) <{fastmath = #arith.fastmath<none>}> {k = false} : (f32, f32) -> f32
   %e = "arith.constant"() <{value = 0 : i1}> {k} : () -> i1
 }) : () -> ()''',
-    "cf branches with forward references used twice": '''"builtin.module"() ({
-  "func.func"() <{function_type = () -> (), sym_name = "h"}> ({
-    "cf.br"()[^use] : () -> ()
-  ^use:
-    %s = "arith.addi"(%c, %c) : (i32, i32) -> i32
-    %t = "arith.muli"(%c, %s) : (i32, i32) -> i32
-    "func.return"() : () -> ()
-  ^def:
-    %c = "arith.constant"() <{value = 1 : i32}> : () -> i32
-    "cf.br"()[^use] : () -> ()
-  }) : () -> ()
-}) : () -> ()''',
 }
 
 
@@ -294,6 +304,25 @@ def directed_modules() -> list[tuple[Any, str]]:
             out.append((Parser(fresh_ctx(), text).parse_module(), label))
         except Exception:  # noqa: BLE001  (an input this tree does not accept is not a case)
             continue
+    # a value used several times before its definition (blocks not in dominance order), built through the API so
+    # that the input does not depend on the parser under test
+    from xdsl.dialects import arith, cf, func
+    from xdsl.dialects.builtin import ModuleOp, i32
+    from xdsl.ir import Block, Region
+
+    for uses in (2, 3):
+        c = arith.ConstantOp.from_int_and_width(1, i32)
+        use_ops: list[Any] = []
+        acc = c.result
+        for _ in range(uses):
+            a = arith.AddiOp(c.result, acc)
+            use_ops.append(a)
+            acc = a.result
+        b_use = Block(use_ops + [func.ReturnOp()])
+        b_def = Block([c, cf.BranchOp(b_use)])
+        b_entry = Block([cf.BranchOp(b_def)])
+        f = func.FuncOp("fwd", ((), ()), Region([b_entry, b_use, b_def]))
+        out.append((ModuleOp([f]), f"a value used {uses + 1} times before its definition"))
     return out
 
 
